@@ -279,6 +279,31 @@ func ruleCov2(c *Ctx) []*Ob {
 		}
 		aware[h] = 3
 		ok := fieldsRead(h, "segmentStack", nil)["childSegStacks"]
+		if ok {
+			// ... at every level: inside its loop over the children it hands each child to itself or to another
+			// children-aware method; reading len(child.a) there covers one level of nesting only
+			deep := false
+			for _, scc := range rangeLoopsOver(h, "childSegStacks") {
+				eachInstr(h, func(i ssa.Instruction) {
+					call, isCall := i.(*ssa.Call)
+					if !isCall || !scc[i.Block()] || deep {
+						return
+					}
+					g := call.Call.StaticCallee()
+					if g == nil || g.Pkg != c.Moss || g.Signature.Recv() == nil || typeName(g.Signature.Recv().Type()) != "segmentStack" {
+						return
+					}
+					if g == h || childrenAware(g) {
+						deep = true
+					}
+				})
+			}
+			if len(rangeLoopsOver(h, "childSegStacks")) > 0 && !deep {
+				ok = false
+				aware[h] = 2
+				return false
+			}
+		}
 		if !ok {
 			eachInstr(h, func(i ssa.Instruction) {
 				if call, isCall := i.(*ssa.Call); isCall && !ok {
@@ -454,6 +479,7 @@ func ruleCov3(c *Ctx) []*Ob {
 		}
 		// the decision must have looked at the store's children
 		looks := false
+		helperWhy := ""
 		for _, a := range fieldAccesses(persist, func(v *types.Var) bool { return v.Name() == "ChildFooters" }) {
 			if mustPrecede(persist, b.Succs[0].Instrs[0], func(i ssa.Instruction) bool { return i == a.Instr }, nil) {
 				looks = true
@@ -526,9 +552,60 @@ func ruleCov3(c *Ctx) []*Ob {
 			}
 			if decided {
 				looks = true
+				// the comparison itself must be able to see an absence on either side, at every level: it ranges over
+				// the footer's children or compares the sizes of the two child maps (a loop over the incoming stack's
+				// children alone cannot see a child that is only in the footer - a deletion), and it calls itself on
+				// the children (a grandchild created or deleted by a data-less batch is a change, too)
+				if h := staticCallee(ci); h != nil {
+					symmetric := len(rangeLoopsOver(h, "ChildFooters")) > 0
+					eachInstr(h, func(j ssa.Instruction) {
+						b, isB := j.(*ssa.BinOp)
+						if !isB || (b.Op != token.EQL && b.Op != token.NEQ) {
+							return
+						}
+						lenOf := func(v ssa.Value) string {
+							call, isCall := v.(*ssa.Call)
+							if !isCall {
+								return ""
+							}
+							if bi, isBi := call.Call.Value.(*ssa.Builtin); !isBi || bi.Name() != "len" {
+								return ""
+							}
+							if fv := childMapOf(call.Call.Args[0]); fv != nil {
+								return fv.Name()
+							}
+							return ""
+						}
+						x, y := lenOf(b.X), lenOf(b.Y)
+						if (x == "ChildFooters" && y == "childSegStacks") || (x == "childSegStacks" && y == "ChildFooters") {
+							symmetric = true
+						}
+					})
+					recursive := false
+					for mn := range childMapNames {
+						for _, scc := range rangeLoopsOver(h, mn) {
+							eachInstr(h, func(j ssa.Instruction) {
+								if k2, isC := j.(ssa.CallInstruction); isC && k2.Common().StaticCallee() == h && scc[j.Block()] {
+									recursive = true
+								}
+							})
+						}
+					}
+					if !symmetric {
+						looks = false
+						helperWhy = h.Name() + "() only walks the incoming stack's children and never compares the number of children: a child that is in the footer but no longer in the stack (a deletion) is invisible to it"
+					} else if !recursive {
+						looks = false
+						helperWhy = h.Name() + "() does not call itself on the children: a data-less batch that creates or deletes a grandchild collection looks unchanged"
+					}
+				}
 			}
 		}
 		why := "the skip also consults the store footer's ChildFooters"
+		if !looks && helperWhy != "" {
+			o.add(fn, "skip on isEmpty() is deletion-aware", c.instrPos(iff), false, "persist skips the round on a child-tree comparison that cannot see every change: "+helperWhy+" - the batch is never persisted and the deleted (grand)child is back after reopen")
+			continue
+		}
 		if !looks {
 			why = "persist returns without building a new footer whenever the incoming stack has no segments, without looking at the store footer's ChildFooters: a batch that only deletes a child collection is never persisted - after reopen the child and all its data are back"
 		}
@@ -1102,6 +1179,47 @@ func controllingIfs(site ssa.Instruction) []*ssa.If {
 		r1 := blockReach(d.Succs[1], d)[sb]
 		if r0 != r1 {
 			out = append(out, iff)
+			continue
+		}
+		// both sides can reach the site, but only one of them must (the other may return first): the classical
+		// control dependence of `if c { if x { return } }; site`
+		if r0 && r1 {
+			memo := map[*ssa.BasicBlock]int{}
+			var must func(b *ssa.BasicBlock) bool
+			must = func(b *ssa.BasicBlock) bool {
+				if b == sb {
+					return true
+				}
+				switch memo[b] {
+				case 1:
+					return true
+				case 2, 3:
+					return false
+				}
+				memo[b] = 3
+				n, ok := 0, true
+				for _, s := range b.Succs {
+					if s.Dominates(b) {
+						continue
+					}
+					n++
+					if !must(s) {
+						ok = false
+					}
+				}
+				if n == 0 {
+					ok = false
+				}
+				if ok {
+					memo[b] = 1
+				} else {
+					memo[b] = 2
+				}
+				return ok
+			}
+			if must(d.Succs[0]) != must(d.Succs[1]) {
+				out = append(out, iff)
+			}
 		}
 	}
 	return out
